@@ -56,6 +56,9 @@ class Prop:
         """case line for the executable specification (extracted from Coq), or None"""
         return None
 
+    def spec_equal(self, sobs, iobs):
+        return canon(sobs) == canon(iobs)
+
     def oracle(self, case, iobs):
         """Independent oracle on the implementation's observation: None if fine, else a message."""
         return None
@@ -68,11 +71,14 @@ class Prop:
         return []
 
 
-def known_match(known, pid, case, iobs):
+def known_match(known, pid, case, iobs, model_agrees=False):
     for k in known:
         if k.get("property") != pid or not str(k.get("status", "")).startswith("open"):
             continue
         m = k.get("match", {})
+        # a deviation of the code *as modelled* from the specification: only when the implementation still behaves as its model
+        if m.get("requires_model_agreement") and not model_agrees:
+            continue
         if "case_regex" in m and not re.search(m["case_regex"], case):
             continue
         if "impl_regex" in m and not re.search(m["impl_regex"], iobs):
@@ -83,8 +89,8 @@ def known_match(known, pid, case, iobs):
 
 def judge(P, case, mobs, iobs, known, sobs=None):
     """-> (status, detail); status in ok | unmodelled | known | violation"""
-    if sobs is not None and sobs not in ("UNMODELLED", "BADCASE") and canon(sobs) != canon(iobs):
-        k = known_match(known, P.id, case, iobs)
+    if sobs is not None and sobs not in ("UNMODELLED", "BADCASE") and not P.spec_equal(sobs, iobs) and canon(mobs) == canon(iobs):
+        k = known_match(known, P.id, case, iobs, model_agrees=True)
         if k:
             return "known", k["id"]
         return "violation", "implementation differs from the specification: specified %s, observed %s" % (sobs, iobs)
